@@ -1125,6 +1125,31 @@ fn check_allow(ac: &ACase, st: &mut Stats) -> CheckResult {
         let names_unlisted = listed.is_some() && !is_listed(c) && id_form_class(r.cid) != Expect::Refuse && r.cid != IdForm::Duplicate;
         let malformed_id = listed.is_some() && id_form_class(r.cid) == Expect::Refuse;
         if !names_unlisted && !malformed_id {
+            // a listed client (or no list at all), in whatever text form of its id: served exactly
+            // as a server without a list serves the very same request
+            if r.cid == IdForm::Duplicate {
+                continue;
+            }
+            // the twin issued its own version ids: resolve the id argument against its history
+            let idb = hb.resolve(&r.idref);
+            hb.know(idb);
+            let bb = build(r, c, other, idb);
+            let ra = ha.drv.http_call(b.req.clone());
+            let rb = hb.drv.http_call(bb.req.clone());
+            st.check();
+            if ra.crashed.is_some() || rb.crashed.is_some() {
+                return v(format!("request {i}: {} {} (client id form {:?}): the handler crashed", b.req.method, b.req.path, r.cid));
+            }
+            if ra.status != rb.status {
+                return v(format!(
+                    "request {i}: {} {} by a listed client (client id form {:?}, {:?}; list {:?}) was answered {}, but {} by a server without a list",
+                    b.req.method, b.req.path, r.cid, b.reasons, ac.allow, ra.status, rb.status
+                ));
+            }
+            st.label(&format!("c16:raw:listed:{:?}:{}", r.cid, ra.status));
+            if listed.is_some() && r.cid != IdForm::Canonical {
+                st.nontrivial(&("c16-raw-listed", ac.allow, r.route, r.cid, ra.status));
+            }
             continue;
         }
         let before = ha.dump()?;
